@@ -332,6 +332,39 @@ func doors(r *Run, tag string, c elliptic.Curve, name string, X, Y *big.Int, wan
 		ok := e2 == nil && e3 == nil && pj2.X().Cmp(X) == 0 && pj2.Y().Cmp(Y) == 0 && tss.SameCurve(pj2.Curve(), c)
 		r.Assert(ok, "ECPoint.MarshalJSON/roundtrip", "json-roundtrip-same-point-and-curve", func() string { return string(back) })
 	}
+	// JSON without a curve name (the older format: absent or empty "Curve"): decoded on the process-wide default curve,
+	// which is set to this curve for the duration; the same acceptance rule applies. Also with null / absent coordinates
+	// (never a point).
+	{
+		old := tss.EC()
+		tss.SetCurve(c)
+		for _, raw := range []string{fmt.Sprintf(`{"Coords":[%s,%s]}`, X.String(), Y.String()), fmt.Sprintf(`{"Curve":"","Coords":[%s,%s]}`, X.String(), Y.String())} {
+			var pl crypto.ECPoint
+			var errl error
+			var pan interface{}
+			func() {
+				defer func() { pan = recover() }()
+				errl = json.Unmarshal([]byte(raw), &pl)
+			}()
+			r.Assert(pan == nil && (errl == nil) == want, "ECPoint.UnmarshalJSON/no-curve-name/"+name, "json-accepts-iff-on-curve", func() string { return fmt.Sprint(tag, " ", raw, " err=", errl, " panic=", pan) })
+			if pan == nil && errl == nil {
+				r.Assert(pl.X().Cmp(X) == 0 && pl.Y().Cmp(Y) == 0 && tss.SameCurve(pl.Curve(), c), "ECPoint.UnmarshalJSON/no-curve-name/roundtrip", "json-roundtrip-same-point-and-curve", func() string { return raw })
+			}
+		}
+		if want {
+			for _, raw := range []string{`{"Coords":[null,null]}`, `{"Curve":""}`, fmt.Sprintf(`{"Coords":[%s,null]}`, X.String())} {
+				var pl crypto.ECPoint
+				var errl error
+				var pan interface{}
+				func() {
+					defer func() { pan = recover() }()
+					errl = json.Unmarshal([]byte(raw), &pl)
+				}()
+				r.Assert(pan == nil && errl != nil, "ECPoint.UnmarshalJSON/no-curve-name/missing-coordinates", "json-accepts-iff-on-curve", func() string { return fmt.Sprint(raw, " err=", errl, " panic=", pan) })
+			}
+		}
+		tss.SetCurve(old)
+	}
 	// Gob: the decoder takes the curve from the process-wide default; set it for the duration
 	if X.Sign() >= 0 && Y.Sign() >= 0 {
 		old := tss.EC()
